@@ -3,6 +3,7 @@ package c17
 import (
 	"errors"
 	"fmt"
+	"reflect"
 	"runtime"
 	"sort"
 	"strings"
@@ -34,6 +35,7 @@ type Req struct {
 
 type Case struct {
 	Split      bool     // EnableSplittingOnParsers
+	Validator  bool     `json:",omitempty"` // the app has a StructValidator (go-playground style: an error for anything that is not a struct)
 	Keep       []string // KeepResponseHeaders; nil = keep all
 	KeepNil    bool
 	Conc       []Req // concurrent requests
@@ -46,6 +48,21 @@ type Case struct {
 	Memory     bool  // default in-memory storage + MemoryLock without yield points (only the handler yields)
 	Retain     bool  `json:",omitempty"` // the external storage keeps the slices it is given (like gofiber's memory driver)
 	Reuse      bool  `json:",omitempty"` // request contexts are recycled as a server does: a request that starts after another one finished is served on that one's RequestCtx
+}
+
+// structOnly is a StructValidator in the style the documentation shows (validator.Struct): values that are not structs
+// (or pointers to structs) are an error.
+type structOnly struct{}
+
+func (structOnly) Validate(out any) error {
+	t := reflect.TypeOf(out)
+	for t != nil && t.Kind() == reflect.Pointer {
+		t = t.Elem()
+	}
+	if t == nil || t.Kind() != reflect.Struct {
+		return fmt.Errorf("validator: (nil %T)", out)
+	}
+	return nil
 }
 
 type fLock struct {
@@ -117,7 +134,11 @@ func check(c Case) vk.Verdict {
 		cfg.Storage = st
 		cfg.Lock = lk
 	}
-	app := fiber.New(fiber.Config{EnableSplittingOnParsers: c.Split})
+	appCfg := fiber.Config{EnableSplittingOnParsers: c.Split}
+	if c.Validator {
+		appCfg.StructValidator = structOnly{} // the documented pattern: validate.Struct(out), which refuses whatever is not a struct
+	}
+	app := fiber.New(appCfg)
 	// a middleware in front of the idempotency middleware sets a per-request response header (a request id)
 	app.Use(func(ctx fiber.Ctx) error {
 		ctx.Set("X-Up", "up-"+ctx.Get("X-G"))
@@ -156,17 +177,7 @@ func check(c Case) vk.Verdict {
 		for _, h := range []string{"X-Rep", "X-Multi", "Set-Cookie", "X-Up"} {
 			if kept(h) {
 				vals := pa(h)
-				if h == "X-Multi" && c.Split {
-					// with comma splitting a "v1, v2" value may be replayed as two values; compare the element set
-					var el []string
-					for _, v := range vals {
-						for _, e := range strings.Split(v, ",") {
-							el = append(el, strings.TrimSpace(e))
-						}
-					}
-					sort.Strings(el)
-					vals = el
-				}
+				// (EnableSplittingOnParsers is an option for parsing requests: a replayed "v1, v2" stays one field line)
 				sig += fmt.Sprintf("|%s=%q", h, vals)
 			}
 		}
@@ -418,7 +429,7 @@ func genReq(t *rapid.T) Req {
 }
 
 func genCase(t *rapid.T) Case {
-	c := Case{Split: rapid.Bool().Draw(t, "split"), Memory: rapid.IntRange(0, 4).Draw(t, "memory") == 0}
+	c := Case{Split: rapid.Bool().Draw(t, "split"), Validator: rapid.IntRange(0, 3).Draw(t, "validator") == 0, Memory: rapid.IntRange(0, 4).Draw(t, "memory") == 0}
 	switch rapid.IntRange(0, 3).Draw(t, "keep") {
 	case 0:
 		c.KeepNil = true
